@@ -119,6 +119,28 @@ def gen_H(rng, K, kind):
         Q, _ = np.linalg.qr(G + np.eye(K) * 3)
         H = Q @ np.diag(d) @ Q.T
         H = (H + H.T) / 2
+    elif kind == 'collinear':
+        # H = -X'WX with linearly dependent regressors and non-dyadic weights: rank deficient, but the
+        # rounding errors keep an LU factorisation from seeing an exact zero pivot
+        n = rng.randint(K + 3, K + 8)
+        r = max(1, K - rng.randint(1, max(1, K - 1))) if K > 1 else 0
+        base = np.array([[rng.choice([1.0, 0.0, rng.choice([0.0, 1.0]), round(rng.gauss(0, 1), 2)]) for _ in range(r)] for _ in range(n)]).reshape(n, r)
+        if r > 0:
+            base[:, 0] = 1.0  # a constant
+        cols = [base[:, k] for k in range(r)]
+        while len(cols) < K:
+            if r == 0:
+                cols.append(np.zeros(n))
+                continue
+            coef = [rng.choice([1.0, -1.0, 0.0, 0.5, rng.uniform(-2, 2)]) for _ in range(r)]
+            if not any(coef):
+                coef[0] = 1.0
+            cols.append(sum(c * base[:, k] for k, c in enumerate(coef)))
+        order = list(range(K))
+        rng.shuffle(order)
+        X = np.column_stack([cols[k] for k in order])
+        prob = np.array([rng.uniform(0.1, 0.9) for _ in range(n)])
+        H = -(X.T @ ((prob * (1 - prob))[:, None] * X))
     elif kind == 'diag':
         H = -np.diag([rng.choice([0.25, 1.0, 4.0, 16.0]) for _ in range(K)])
     else:  # zero
@@ -128,7 +150,7 @@ def gen_H(rng, K, kind):
 
 def gen_case(rng, K=None, kind=None, boot=None, allow_k1_boot=False):
     K = K or rng.choice([1, 2, 2, 3, 3, 4, 5, 6])
-    kind = kind or rng.choice(['negdef', 'negdef', 'negdef', 'singular', 'singular', 'nan', 'indefinite', 'diag', 'zero'])
+    kind = kind or rng.choice(['negdef', 'negdef', 'negdef', 'singular', 'singular', 'collinear', 'collinear', 'nan', 'indefinite', 'diag', 'zero'])
     names = rng.sample(NAME_POOL, K)
     beta = [rng.choice([dy(rng, -3, 3), rng.uniform(-2, 2), 0.0, 1.0]) for _ in range(K)]
     H = gen_H(rng, K, kind)
@@ -367,6 +389,43 @@ def mat_close(a, b, rel, scale=None):
     return True
 
 
+def pinv_reference(A):
+    """(norm bound, reference pseudo-inverse) of A from its singular values when the numerical rank is
+    unambiguous (no singular value between 1e-13 and 1e-9 of the largest one), else None.  The
+    Moore-Penrose inverse is unique (C08.pinv_unique) and has spectral norm 1/sigma_min+."""
+    A = np.asarray(A, dtype=float)
+    if not np.all(np.isfinite(A)):
+        return None
+    try:
+        U, sv, Vt = np.linalg.svd(A)
+    except np.linalg.LinAlgError:
+        return None
+    smax = float(sv.max()) if sv.size else 0.0
+    if smax == 0.0:
+        return 0.0, np.zeros_like(A)
+    if np.any((sv > 1e-13 * smax) & (sv < 1e-9 * smax)):
+        return None
+    keep = sv >= 1e-9 * smax
+    inv = np.where(keep, 1.0 / np.where(keep, sv, 1.0), 0.0)
+    ref = (Vt.T * inv) @ U.T
+    return float(inv.max()), ref
+
+
+def penrose_tolerances(K, nA, nX_code, ref):
+    """tolerances of the four Penrose residuals.  With an unambiguous rank the scale is the norm of THE
+    pseudo-inverse (1/sigma_min+), not the norm of whatever matrix the code returned."""
+    c = 1e4 * K * K * EPS
+    nX = nX_code if ref is None else max(ref[0], 1e-300)
+    return [c * nA * nA * nX + 1e-300, c * nX * nX * nA + 1e-300, c * nA * nX + 1e-300, c * nA * nX + 1e-300], nX
+
+
+def cov_scale(S, *mats):
+    """scale for comparing sample covariances: their magnitude, but never below the rounding level of the
+    data (a replication that never moves has variance 0 up to (eps*|x|)^2 noise)"""
+    m = max([maxabs(x) for x in mats if x is not None] + [0.0])
+    return max(m, 1e-12 * maxabs(S) ** 2, 1e-300)
+
+
 def p_of_t(t):
     """the statement's formula 2(1 - Phi(|t|)), evaluated without cancellation"""
     if math.isnan(t):
@@ -448,23 +507,27 @@ def oracle(case, out):
     with np.errstate(all='ignore'):
         # variance-covariance = pseudo-inverse of minus the Hessian: the four Penrose equations
         A = -H
-        nA, nX = max(maxabs(A), 1e-300), max(maxabs(V), 1e-300)
-        c = 1e4 * K * K * EPS
+        nA = max(maxabs(A), 1e-300)
+        ref = pinv_reference(A)
+        tols, nX = penrose_tolerances(K, nA, max(maxabs(V), 1e-300), ref)
         if np.all(np.isfinite(V)):
-            res = [
-                (maxabs(A @ V @ A - A), c * nA * nA * nX + 1e-300),
-                (maxabs(V @ A @ V - V), c * nX * nX * nA + 1e-300),
-                (maxabs((A @ V).T - A @ V), c * nA * nX + 1e-300),
-                (maxabs((V @ A).T - V @ A), c * nA * nX + 1e-300),
-            ]
-            for i, (r, tol) in enumerate(res):
+            rs = [maxabs(A @ V @ A - A), maxabs(V @ A @ V - V), maxabs((A @ V).T - A @ V), maxabs((V @ A).T - V @ A)]
+            for i, (r, tol) in enumerate(zip(rs, tols)):
                 if not r <= tol:
                     bad.append((f'varCovar is not a pseudo-inverse of -H (Penrose equation {i + 1})', r, f'<= {tol:.3g}', W))
                     break
+            if ref is not None:
+                # the pseudo-inverse is unique: it is the reference one, and its entries are bounded by 1/sigma_min+
+                if not maxabs(V) <= 2.0 * K * ref[0] + 1e-300:
+                    bad.append(('varCovar is not the pseudo-inverse of -H: entries exceed the norm of the pseudo-inverse (1/smallest non-zero singular value)',
+                                maxabs(V), f'<= {2.0 * K * ref[0]:.6g}', W))
+                elif not mat_close(V, ref[1], 1e-6, scale=max(ref[0], 1e-300)):
+                    bad.append(('varCovar differs from the (unique) pseudo-inverse of -H', out['V'], ref[1].tolist(), W))
         else:
             bad.append(('varCovar has non-finite entries', out['V'], 'finite pseudo-inverse', W))
         # robust = V B V
         Rexp = V @ Bh @ V
+        nX = max(maxabs(V), 1e-300)
         if not mat_close(out['R'], Rexp, 1e-9, scale=max(maxabs(Rexp), nX * nX * maxabs(Bh) * 1e-3, 1e-300)):
             bad.append(('robust variance-covariance = V.BHHH.V', out['R'], Rexp.tolist(), W))
         # bootstrap = sample covariance
@@ -473,7 +536,7 @@ def oracle(case, out):
             nb = S.shape[0]
             mean = S.sum(axis=0) / nb
             C = (S - mean).T @ (S - mean) / (nb - 1)
-            if out['Bt'] is None or not mat_close(out['Bt'], C, 1e-9):
+            if out['Bt'] is None or not mat_close(out['Bt'], C, 1e-9, scale=cov_scale(S, C, out['Bt'])):
                 bad.append(('bootstrap variance-covariance = sample covariance of the replications', out['Bt'], C.tolist(), W))
 
     fams = [('cls', 'V', 'corr', 'Beta.set_std_err'), ('rob', 'R', 'rcorr', 'Beta.set_robust_std_err')]
@@ -635,8 +698,10 @@ def compare_report(res, case, out, ans, gen):
     # relational step
     pr = [b2f(x) for x in ans['penrose']]
     nA, nX = max(pr[4], 1e-300), max(pr[5], 1e-300)
-    c = 1e4 * K * K * EPS
-    tols = [c * nA * nA * nX + 1e-300, c * nX * nX * nA + 1e-300, c * nA * nX + 1e-300, c * nA * nX + 1e-300]
+    with np.errstate(all='ignore'):
+        ref = pinv_reference(-np.nan_to_num(np.array(case['H'], dtype=float)))
+    res.tally('rank_unambiguous' if ref is not None else 'rank_ambiguous')
+    tols, _ = penrose_tolerances(K, nA, nX, ref)
     for i in range(4):
         if not pr[i] <= tols[i]:
             dv(f'IsPinv (nan_to_num H) (-varCovar): Penrose equation {i + 1} residual', pr[i], f'<= {tols[i]:.3g}')
@@ -649,7 +714,7 @@ def compare_report(res, case, out, ans, gen):
         dv('robust_varCovar vs Stats.robust', Rm, out['R'])
     if case['S'] is not None:
         Cm = unbm(ans['samplecov'])
-        if out['Bt'] is None or not mat_close(Cm, out['Bt'], 1e-9):
+        if out['Bt'] is None or not mat_close(Cm, out['Bt'], 1e-9, scale=cov_scale(case['S'], Cm, out['Bt'])):
             dv('bootstrap_varCovar vs Stats.sampleCov', Cm, out['Bt'])
     # families, stage-wise (the code's own matrix in, statistics out)
     for fam, ck in (('cls', 'corr'), ('rob', 'rcorr'), ('boot', 'bcorr')):
@@ -678,6 +743,8 @@ def compare_report(res, case, out, ans, gen):
             continue
         M = np.array(out[mk], dtype=float)
         scale = maxabs(M)
+        if fam == 'boot':
+            scale = max(scale, 1e-6 * maxabs(case['S']) ** 2)
         for k in range(K):
             if not (math.isfinite(M[k, k]) and abs(M[k, k]) > 1e-6 * scale and scale > 0):
                 res.tally('chain_skipped_illconditioned')
@@ -1049,6 +1116,20 @@ CORPUS = [
      'H': [[-1.0, -1.0, float('nan')], [-1.0, -1.0, 0.0], [float('nan'), 0.0, -2.0]], 'B': [[1.0, 0.5, 0.0], [0.5, 2.0, 0.0], [0.0, 0.0, 0.0]],
      'S': None, 'L': -50.0, 'init': 0.0, 'null': None, 'N': 7, 'nobs': 21, 'excluded': 3, 'mc': True, 'ndraws': 100, 'threads': 4},
 ]
+def _collinear_corpus():
+    dummy = np.array([1.0, 0.0, 1.0, 1.0, 0.0, 0.0, 1.0])
+    x = np.column_stack([np.ones(7), dummy, 1.0 - dummy])
+    prob = np.array([0.3, 0.45, 0.62, 0.21, 0.77, 0.52, 0.35])
+    H = -(x.T @ ((prob * (1.0 - prob))[:, None] * x))
+    sc = x * (np.array([0.7, -0.45, 0.38, -0.21, 0.23, -0.52, 0.65]))[:, None]
+    return {'kind': 'report', 'hkind': 'collinear', 'names': ['asc', 'b_yes', 'b_no'], 'beta': [0.5, -1.2, 0.8], 'bounds': [[None, None]] * 3,
+            'H': H.tolist(), 'B': (sc.T @ sc).tolist(), 'S': None, 'L': -100.0, 'init': -140.0, 'null': -150.0, 'N': 7, 'nobs': 7, 'excluded': 0,
+            'mc': False, 'ndraws': 0, 'threads': 1}
+
+
+# a constant and two complementary dummies: rank 2 with 3 parameters, not exactly singular in floating point
+CORPUS.append(_collinear_corpus())
+
 CORPUS_K1_BOOT = {
     'kind': 'report', 'hkind': 'corpus', 'names': ['b'], 'beta': [0.5], 'bounds': [[None, None]], 'H': [[-4.0]], 'B': [[3.0]],
     'S': [[0.4], [0.6], [0.5]], 'L': -100.0, 'init': -120.0, 'null': None, 'N': 100, 'nobs': 100, 'excluded': 0, 'mc': False, 'ndraws': 0, 'threads': 1,
@@ -1067,7 +1148,7 @@ CORPUS_LR = [
 
 def nontrivial(case):
     return len(case['beta']) >= 2 and (
-        case.get('hkind') in ('singular', 'nan', 'indefinite', 'zero', 'real') or case['S'] is not None
+        case.get('hkind') in ('singular', 'collinear', 'nan', 'indefinite', 'zero', 'real') or case['S'] is not None
         or any(l is not None or u is not None for l, u in case['bounds'])
     )
 
